@@ -232,6 +232,10 @@ def verdict(v, wants) -> str:
     wants = list(wants)
     if v in wants:
         return "ok"
+    v = _av.distribute_ifs(v)
+    wants = [_av.distribute_ifs(w) for w in wants]
+    if v in wants:
+        return "ok"
     if _av.has_unk(v) and any(_av.compatible(v, w) for w in wants):
         return "unknown"
     return "bad"
@@ -364,6 +368,17 @@ def text_of(ctx: Ctx, f: Func, args: dict | None = None) -> str | None:
     indent / dedent wrappers), or None when it is not understood"""
     v = value_of(ctx, f, args)
     while v[0] == "mcall" and v[2] in ("_format", "_formatter") and len(v[3]) == 1:
+        v = v[3][0]
+    if _av.has_unk(v) or not _av._is_str(v):
+        return None
+    return _av.flatten(v).replace(_av.HO, "{").replace(_av.HC, "}")
+
+
+def printed_text(ctx: Ctx, f: Func) -> str | None:
+    """flat text of what a printer method prints: the string it returns, or the string it hands on to the generic
+    `self._print(<text>)` (a str is printed as itself); None when not understood"""
+    v = value_of(ctx, f)
+    if v[0] == "mcall" and v[2] == "_print" and len(v[3]) == 1 and _av._is_str(v[3][0]):
         v = v[3][0]
     if _av.has_unk(v) or not _av._is_str(v):
         return None
